@@ -93,6 +93,8 @@ class Interp:
             base = self.ev(n.value)
             idx = n.slice
             if isinstance(base, tuple) and isinstance(idx, ast.Constant) and isinstance(idx.value, int):
+                if not -len(base) <= idx.value < len(base):
+                    raise AnalysisError("subscript %s out of range for a %d-tuple" % (norm(n), len(base)))
                 return base[idx.value]
             raise AnalysisError("subscript outside the order-model class: %s" % norm(n))
         if isinstance(n, ast.Call):
